@@ -587,9 +587,9 @@ def fix_desc(d):
 def explain(desc, tag="x"):
     """which parts of the oracle reject"""
     o = observe(desc)
-    bad, logs = coq_eval("C16", PRELUDE, "(fun c => if forallb (fun b => b) (spec_parts c) then 0%nat else "
-                         "(fold_right (fun b acc => (2 * acc + (if b then 0 else 1))%nat) 0%nat (spec_parts c)))",
-                         [c_case(desc, o)], tag=tag, case_type="case")
+    if o["outcome"] != 0:
+        return ["raise_not_justified"]
+    bad, logs = coq_eval("C16", PRELUDE, "spec_fail_bits", [c_case(desc, o)], tag=tag, case_type="case")
     parts = ["user_after", "user_used", "decl_after", "decl_used", "helpers_after", "helpers_used",
              "specnames_after", "specnames_used", "private_after", "private_used", "item_rule"]
     if not bad:
@@ -613,7 +613,7 @@ def main(tier, replay=None):
     descs = [fix_desc(d) for d, _ in cases]
     bad, logs, obss = evaluate(descs)
     reported = set()
-    for i, code in sorted(bad, key=lambda b: (-b[1], len(descs[b[0]]["attrs"])))[:30]:
+    for i, code in sorted(bad, key=lambda b: (-b[1], len(descs[b[0]]["attrs"])))[:10]:
         small = shrink(descs[i], code)
         why = explain(small) if code == 2 else []
         o = observe(small)
